@@ -299,6 +299,9 @@ def spec() -> Spec:
     return Spec(
         pid=PID,
         proof_modules=["EphVerif.Proofs.C28"],
+        # composition module (store -> list / fetch end to end): imports the proofs of C27, C29, C19, C02, C01, C11, C30, C31;
+        # counted when it builds, never an alarm for C28
+        soft_proof_modules=["EphVerif.Proofs.SystemControl"],
         driver="drv_c28",
         harness=harness,
         generate=generate,
